@@ -299,9 +299,11 @@ impl<'a> R<'a> {
                             }
                             Some(';') => {
                                 let rem = &self.s[self.i..];
-                                if rem.len() < term_len {
-                                    // heuristic adopted from the lexer: too few characters left
-                                    // for a terminator => the block is taken to end here
+                                if rem.len() < term_len && rem.bytes().all(|b| b == b';') {
+                                    // the input ends in fewer `;` than the terminator needs: an
+                                    // unterminated block whose partial terminator is that run.
+                                    // (A `;` followed by anything else is data, however close
+                                    // to the end of input it is.)
                                     self.out.errs.push((ErrorKind::UnterminatedDatalines, self.i));
                                     break;
                                 }
